@@ -114,6 +114,29 @@ def gen() -> None:
     args_err = _decode_errors(args[0], "Request.args")
     fpath_err = _decode_errors(fpath[0], "Request.full_path")
 
+    # Request.args: the keywords handed to urllib.parse.parse_qsl decide which ValueErrors it can raise
+    qsl = [n for n in ast.walk(args[0]) if isinstance(n, ast.Call) and ast.unparse(n.func) in ("parse_qsl", "urllib.parse.parse_qsl")]
+    if len(qsl) != 1:
+        raise px.Unsupported(f"Request.args: expected exactly one parse_qsl call, found {len(qsl)}")
+    if len(qsl[0].args) != 1:
+        raise px.Unsupported("Request.args: parse_qsl positional arguments changed")
+    kws = {}
+    for kw in qsl[0].keywords:
+        if kw.arg is None:
+            raise px.Unsupported("Request.args: parse_qsl called with **kwargs")
+        kws[kw.arg] = px.const(kw.value)
+    unknown = set(kws) - {"keep_blank_values", "strict_parsing", "errors", "encoding", "max_num_fields", "separator"}
+    if unknown:
+        raise px.Unsupported(f"Request.args: parse_qsl keywords not modelled: {sorted(unknown)}")
+    if kws.get("separator", "&") != "&" or kws.get("encoding", "utf-8").lower().replace("-", "") != "utf8":
+        raise px.Unsupported("Request.args: parse_qsl separator / encoding changed")
+    if kws.get("errors", "replace") not in ("replace", "werkzeug.url_quote", "ignore"):
+        raise px.Unsupported(f"Request.args: parse_qsl errors={kws.get('errors')!r} can raise")
+    mnf = kws.get("max_num_fields")
+    if mnf is not None and not (isinstance(mnf, int) and not isinstance(mnf, bool) and mnf >= 0):
+        raise px.Unsupported("Request.args: max_num_fields is not a literal")
+    strict = bool(kws.get("strict_parsing", False))
+
     # get_host: default-port suffixes per scheme set
     gh = px.find_def(sutils, "get_host")
     strip_rules = []
@@ -153,6 +176,8 @@ def gen() -> None:
     text += f"Definition cookie_decode_replace : bool := {'true' if cookie_err == 'replace' else 'false'}.\n"
     text += f"Definition args_decode_replace : bool := {'true' if args_err == 'replace' else 'false'}.\n"
     text += f"Definition full_path_decode_replace : bool := {'true' if fpath_err == 'replace' else 'false'}.\n"
+    text += f"Definition args_max_num_fields : option N := {'None' if mnf is None else f'(Some {mnf})'}.   (* parse_qsl(max_num_fields=...) in Request.args *)\n"
+    text += f"Definition args_strict_parsing : bool := {'true' if strict else 'false'}.\n"
     text += "Definition default_port_rules : list (list (list N) * list N) :=\n  [" + ";\n   ".join(
         "([" + "; ".join(codes(s) for s in schemes) + "], " + codes(suffix) + ")" for schemes, suffix in strip_rules) + "].\n"
     px.write_if_changed(os.path.join(COQ, "C07", "Gen.v"), text)
@@ -250,6 +275,68 @@ def gen_structured(rng) -> str:
     if fam == 9:    # Age / Content-Length / Max-Forwards
         return w() + _pick(rng, NUMS) + w()
     return gen_hostile(rng)
+
+
+COUNTS = [9, 10, 11, 99, 100, 101, 999, 1000, 1001, 1500, 5000]
+OCT = ["000", "007", "010", "077", "100", "177", "200", "277", "300", "377", "378", "380", "400", "477", "500", "777", "078", "08", "3", "37", "8", "9", "0", "0000", "3777"]
+HEXE = ["%00", "%0a", "%1f", "%20", "%22", "%25", "%2f", "%2F", "%2g", "%g2", "%7e", "%7F", "%80", "%bf", "%C0", "%c2%80", "%C3%A9", "%c3%28", "%e2%82%ac", "%E2%82",
+        "%ed%a0%80", "%f0%9f%98%80", "%f4%90%80%80", "%ff", "%fF", "%Ff", "%", "%%", "%4", "%4%41", "%u0041", "%zz", "%3", "% 41"]
+FIRSTS = [0, 1, 2, 5, 9, 10, 99, 100, 499, 500, 65535, 2 ** 31, 2 ** 63, 2 ** 64, 10 ** 20, 10 ** 4299, 10 ** 4300 - 1, 10 ** 4300]
+
+
+def boundary_cases(rng, fz) -> list[str]:
+    """boundary-oriented header texts, deterministic core plus a few random combinations per family."""
+    out = []
+    # cookies: every escape shape at the edges of the octal class, in every position of a quoted value
+    for o in OCT:
+        out += [f'a="\\{o}"', f'sid="x\\{o}y"; theme=dark', f'k="\\{o}\\073"', f'first=1; tok="abc\\{o}7"', f'a=\\{o}', f'a="\\{o}']
+    out += ['a="\\"', 'a="\\\\"', 'a="\\\""', 'a="\\;"; b=c', 'a="\\,"', 'a="x\\"', 'a="\\ "', 'a="\\\xff"', 'a="\\\xe9\xa9"', 'a="\\3\xff7"']
+    for _ in range(40):
+        out.append("; ".join(f'{rng.choice("abk")}="' + "".join(rng.choice(["\\" + rng.choice(OCT), "x", " ", "\\\\", '\\"', "\xe9", ";", ","]) for _ in range(rng.randint(1, 4))) + '"'
+                             for _ in range(rng.randint(1, 3))))
+    # ranges: last in {first-2, first-1, first, first+1}, alone and inside multi-ranges, with blanks
+    for f in FIRSTS:
+        for d in (-2, -1, 0, 1):
+            last = f + d
+            if last < 0:
+                continue
+            a, b = fz(f), fz(last)
+            out += [f"bytes={a}-{b}", f"bytes=0-0,{a}-{b}" if f > 1 else f"bytes={a}-{b},{fz(last + 2)}-", f"items = {a} - {b} ", f"bytes={a}-{b},-3"]
+            # content ranges around the same boundary: stop and length one off either way
+            for ln in (last - 1, last, last + 1, last + 2):
+                if ln >= 0:
+                    out.append(f"bytes {a}-{b}/{fz(ln)}")
+            out.append(f"bytes {a}-{b}/*")
+    out += ["bytes=-0", "bytes=-1", "bytes=0-", "bytes=0-0", "bytes=1-0", "bytes=0-9,20-19", "bytes=0-9,9-9", "bytes=0-9,10-10", "bytes=0-9,8-20", "bytes=5-,6-7", "bytes=-5,6-7",
+            "bytes */0", "bytes */-0", "bytes */-1", "bytes 0-0/0", "bytes 0-0/1"]
+    # percent escapes at the edges of the hex class, in RFC 2231 values and as plain text
+    for e in HEXE:
+        out += [f"a; k*=utf-8''{e}", f"a; k*=us-ascii''x{e}y", f"a; k*=iso-8859-1''{e}{e}", f'a; k*="{e}"', f"k*=utf-8''{e}, j={e}", f"a; k*0*=utf-8''{e}; k*1*={e}"]
+    # numbers: long digit runs and the limits of every numeric field
+    for nn in ["0", "1", "65535", "65536", "86399999999999", "86400000000000", "9" * 18, "9" * 19, "9" * 20, "1" * 4299, "1" * 4300, "1" * 4301, "0" * 4301, "-" + "1" * 4300, "1" * 10000]:
+        out += [nn, f" {nn} ", f"max-age={nn}", f"a;q={nn}", f"a;q=0.{nn}", f"a;q=1.{nn}", f"x:{nn}"]
+    # counts and lengths at powers of ten: list items, cookie pairs, parameters, directives, plain length
+    for c in COUNTS:
+        out += [",".join(f"i{i}" for i in range(c)), ", ".join(f'"t{i}"' for i in range(c)), "; ".join(f"k{i}=v{i}" for i in range(c)),
+                "a" + "".join(f"; p{i}=v" for i in range(c)), ", ".join(f"d{i}={i}" for i in range(c)), "bytes=" + ",".join(f"{2 * i}-{2 * i}" for i in range(c)),
+                "a" * c, "a" * (c * 10), '"' * c, "\\" * c, ";" * c, "," * c, "=" * c, "*" * c, " " * c + "x", "x" + "\xa0" * c,
+                "text/html;q=0." + "5" * c, ",".join("text/html;q=0.5" for _ in range(c)), "a;k*=utf-8''" + "%C3%A9" * c, "Basic " + "QUJD" * c, "Basic " + "=" * c]
+    return out
+
+
+def boundary_environs() -> list[tuple[str, str]]:
+    """(environ variable, value) pairs with field counts and lengths at powers of ten."""
+    out = []
+    for c in COUNTS:
+        out += [("QUERY_STRING", "&".join(f"k{i}=v{i}" for i in range(c))), ("QUERY_STRING", "&" * c), ("QUERY_STRING", "&".join("a" for _ in range(c))),
+                ("QUERY_STRING", "&".join("id=1" for _ in range(c))), ("QUERY_STRING", "a=" + "%FF" * c), ("QUERY_STRING", ";".join(f"k{i}=v" for i in range(c))),
+                ("HTTP_COOKIE", "; ".join(f"k{i}=v{i}" for i in range(c))), ("HTTP_COOKIE", "k=" + "v" * (10 * c)),
+                ("HTTP_ACCEPT", ",".join(f"a/b{i};q=0.{i % 10}" for i in range(c))), ("HTTP_ACCEPT_LANGUAGE", ",".join(f"l{i}" for i in range(c))),
+                ("HTTP_X_FORWARDED_FOR", ", ".join(f"10.0.{i % 256}.{i // 256}" for i in range(c))), ("HTTP_IF_NONE_MATCH", ", ".join(f'"e{i}"' for i in range(c))),
+                ("HTTP_RANGE", "bytes=" + ",".join(f"{2 * i}-{2 * i}" for i in range(c))), ("CONTENT_TYPE", "text/plain" + "".join(f"; p{i}=v" for i in range(c))),
+                ("HTTP_CACHE_CONTROL", ", ".join(f"d{i}={i}" for i in range(c))), ("HTTP_HOST", "a" * c + ".example.com"), ("HTTP_HOST", "example.com:" + "8" * (c // 100 + 1)),
+                ("PATH_INFO", "/" + "a/" * c), ("HTTP_AUTHORIZATION", "Basic " + "QUJD" * c), ("HTTP_USER_AGENT", "x" * (10 * c))]
+    return out
 
 
 def _regroup(b: str) -> str:
@@ -464,6 +551,8 @@ def run(chk: Check) -> None:
     # ---------------------------------------------------------------- corpus first
     for s in corpus["parsers"]:
         run_parsers(s)
+    for s in boundary_cases(rng, fz):
+        run_parsers(s)
     for _ in range(n):
         run_parsers(gen_hostile(rng))
     for _ in range(3 * n):
@@ -560,6 +649,11 @@ def run(chk: Check) -> None:
         return e
     bodies = [b"", b"a=b&c=%ff", b"--x\r\nContent-Disposition: form-data; name=\"a\"\r\n\r\nv\r\n--x--\r\n", b'{"a": 1}', b"\xff\xfe"]
     env_cases = [({k: v}, m) for k, vs in corpus["environ"].items() for v in vs for m in ("GET", "POST")]
+    env_cases += [({k: v}, "GET") for k, v in boundary_environs()]
+    bcs = boundary_cases(rng, fz)
+    for k, pick in (("HTTP_COOKIE", lambda x: x.startswith(("a=", "sid=", "k=", "first=", "b="))), ("HTTP_RANGE", lambda x: x.startswith(("bytes=", "items ="))),
+                    ("HTTP_IF_RANGE", lambda x: x.startswith("bytes=")), ("CONTENT_TYPE", lambda x: x.startswith("a; k*"))):
+        env_cases += [({k: v}, "GET") for v in bcs if pick(v) and len(v) < 200][:400]
     for _ in range(n):
         over = {}
         for _ in range(rng.choice([1, 1, 1, 2, 3])):
@@ -615,6 +709,8 @@ def run(chk: Check) -> None:
 def main(chk: Check) -> None:
     try:
         c06mod.gen()
+        from . import c13 as c13mod     # the cookie model reads C13/Gen.v (class tables, pattern texts): keep it current
+        c13mod.gen()
         gen()
     except px.Unsupported as e:
         chk.broken("translator", "C07/Gen.v", str(e))
